@@ -5389,7 +5389,7 @@ void UniCompiler::emit_vm(UniOpVM op, const Vec& dst_, const Mem& src_, Alignmen
 
           src.add_offset(1);
           cc->movzx(tmp, src);
-          cc->pinsrw(dst, src, 4);
+          cc->pinsrw(dst, tmp, 4);
         }
         return;
       }
